@@ -8,7 +8,7 @@ rnd = int(sys.argv[2]) if len(sys.argv) > 2 else 1
 p = props[pid]
 wt = f"/tmp/seed/{pid}"
 out = f"{wt}-out" if rnd == 1 else f"{wt}-out{rnd}"
-names = {1: ("A", "B"), 2: ("C", "D"), 3: ("E", "F"), 4: ("G", "H")}[rnd]
+names = {1: ("A", "B"), 2: ("C", "D"), 3: ("E", "F"), 4: ("G", "H"), 5: ("I", "I")}[rnd]
 avoid = ""
 if rnd > 1:
     import glob, os
@@ -48,4 +48,17 @@ DELIVERABLES: {out}/{names[0]}/ and {out}/{names[1]}/, each containing
   patch.diff  (output of `git diff` in the worktree with only that change applied; must apply with `git apply` to a clean checkout)
   demo.py
   meta.json   {{"property": "{pid}", "summary": "<what was changed>", "breaks": "<which part of the statement fails and how>", "needs": "<what it needs in order to manifest>", "files": ["src/twisted/..."], "tests": ["src/twisted/.../test_x.py", ...], "ran": ["<commands you ran and their outcome>"]}}
-Do NOT use `git stash` (the stash is shared between worktrees; use `git diff > file; git checkout -- .; git apply file` instead). When finished leave the worktree clean (`git checkout -- .`, remove stray files). Final answer: for {names[0]} and {names[1]}, two or three sentences each on what the change is and why tests miss it, plus the test results you observed.""")
+Do NOT use `git stash` (the stash is shared between worktrees; use `git diff > file; git checkout -- .; git apply file` instead). When finished leave the worktree clean (`git checkout -- .`, remove stray files). Final answer: for {names[0]} and {names[1]}, two or three sentences each on what the change is and why tests miss it, plus the test results you observed.""" if rnd < 5 else "")
+if rnd == 5:
+    # round 5: ONE change per agent, short time budget
+    import io, contextlib, subprocess
+    txt = subprocess.run([sys.executable, __file__, pid, "4"], capture_output=True, text=True).stdout
+    txt = txt.replace(f"{wt}-out4", out)
+    txt = txt.replace("Produce TWO independent changes (call them G and H) to the Twisted *source* (not to tests), each of which BREAKS",
+                      "Produce ONE change (call it I) to the Twisted *source* (not to tests) which BREAKS")
+    txt = txt.replace("Make G and H attack different clauses / mechanisms of the property (e.g. an ordering clause vs an exactly-once clause vs a boundary vs an error path).",
+                      "TIME BUDGET: you have about 12 minutes in total. Decide on the change quickly, run only the test modules that directly exercise the file(s) you changed, and write the deliverables as soon as the demo behaves as required.")
+    txt = txt.replace("For each change write", "Write")
+    txt = txt.replace(f"{out}/G/ and {out}/H/, each containing", f"{out}/I/ containing")
+    txt = txt.replace("Final answer: for G and H, two or three sentences each", "Final answer: two or three sentences")
+    print(txt)
